@@ -216,6 +216,23 @@ def k_general(run, case):
         arr["p"][:, PLANES[plane]] = rng.normal(size=n) * 10.0**rng.uniform(-12, -7)
         sub = "tiny out-of-plane offsets"
     mode = "se3" if rng.random() < .5 else "xyzq"
+    if rng.random() < .12:
+        # positions exactly in the plane, every attitude a rotation about ONE principal axis (or the
+        # identity) given by a quaternion with exact zeros - about the normal (planar poses) or
+        # about an in-plane axis (pitching / rolling on the spot)
+        ax = int(rng.integers(3))
+        e = np.zeros(3)
+        e[ax] = 1.0
+        arr["p"][:, PLANES[plane]] = 0.0
+        q = np.zeros((n, 4))
+        for k in range(n):
+            a = 0.0 if rng.random() < .2 else float(rng.uniform(-PI, PI))
+            q[k] = [math.cos(a / 2)] + list(e * math.sin(a / 2))
+            planar[k] = ax == PLANES[plane]
+            headings[k] = a if planar[k] else 0.0
+        arr = dict(arr, q=q, R=np.array([rm.rot_from_quat_wxyz(qk) for qk in q]))
+        sub = "in-plane positions, attitudes about the %s axis" % "xyz"[ax]
+        mode = "xyzq" if rng.random() < .7 else mode
     stamped = bool(rng.random() < .6)
     run_project(run, case, arr, plane, mode, stamped, planar, headings, bool(rng.random() < .4),
                 [sub + ":" + plane, "storage:" + mode],
